@@ -53,6 +53,19 @@ def ob_handle_no_connection_ops(report, prop=None):
                             path_summary(r), key='handle-closes-connection', paths=len(res))
                 o.replay = write_replay(prop or PROP, o.name, path_summary(r))
                 return o
+        # ... and holds on to nothing: once do_handle has returned (served, failed or cancelled) the task ends - its stream halves are dropped, the slot goes back to the peer.
+        # Anything awaited afterwards (a "linger" sleep on the error path) keeps the slot of every cancelled RPC occupied for that long.
+        for r in res:
+            polls = [e for e in r.events if e.kind == 'poll']
+            dh = [i for i, e in enumerate(polls) if re.search(r'do_handle', vrepr(e.args[0]) if e.args else '') or re.search(r'do_handle', str(e.name))]
+            later = [e for e in (polls[dh[-1] + 1:] if dh else polls) if not re.search(r'do_handle', vrepr(e.args[0]) if e.args else '')]
+            sl = [e for e in r.events if e.kind == 'call' and re.search(r'tokio::time::(sleep|sleep_until|timeout)$|(^|::)sleep$', str(e.name))]
+            if later or sl:
+                what = (sl[0].name if sl else later[0].name)
+                o = ob.done([ex], 'violated', f'after the stream handler has finished (or failed, or was cancelled) the request task still awaits {str(what)[:70]} while owning both stream halves: the '
+                            'stream slot of every abandoned RPC stays occupied for that long, and enough abandoned RPCs block later ones', path_summary(r), key='handle-lingers', paths=len(res))
+                o.replay = write_replay(prop or PROP, o.name, path_summary(r))
+                return o
         ob.done([ex], 'held', '', {'paths': len(res)}, paths=len(res))
     return guarded(report, 'request_failure_touches_only_its_stream', 'BiStreamRequestHandler::handle performs no connection-level operation whatever do_handle returns',
                    ['BiStreamRequestHandler::handle'], {}, body)
